@@ -45,6 +45,7 @@ def check(v, hists):
     for h in hists:
         by_height = collections.defaultdict(list)
         intents = {e["id"]: e.get("intent", "") for e in h.events if e.get("kind") == "tx_built"}
+        built_by_id = {e["id"]: e for e in h.events if e.get("kind") == "tx_built"}
         for e in h.events:
             if "height" in e:
                 by_height[e["height"]].append(e)
@@ -109,6 +110,15 @@ def check(v, hists):
                         removes = any(intents.get(i, "").startswith("currency_pairs:remove") for i in decided_ids)
                         ctx = "/%s/%s" % ("after-cached-execution" if e.get("path", 0) <= 5 else "without-cached-execution",
                                           "block-removes-a-priced-currency-pair" if removes else "no-pair-removal-in-block")
+                    decided_ids = []
+                    for pe in prep:
+                        if pe.get("decided"):
+                            decided_ids = pe.get("tx_ids") or []
+                    cctx = chainlog.construct_context(r, decided_ids, built_by_id)
+                    if cctx:
+                        v.violate("C05/path-failure/%s/construct%s" % ("process-or-finalize-on-non-proposers", cctx),
+                                  "%s failed on node %s at height %d: the proposer included (from its mempool) a transaction that cannot be rebuilt against the block-start state: %s" % (e["call"], e["node"], height, r[:200]), wit)
+                        continue
                     v.saw("finalize_failures_seen")
                     v.violate("C05/path-failure/%s/%s%s" % (e["call"], chainlog.err_class(r), ctx),
                               "%s failed on node %s at height %d along a legal call path: %s" % (e["call"], e["node"], height, r[:160]), wit)
@@ -131,6 +141,12 @@ def check(v, hists):
                     v.violate("C05/lab-replay-divergence", "step-by-step replay of finalize_block (non-cached path) gives another app hash than the nodes", wit)
             for e in evs:
                 if e["kind"] == "lab_error":
+                    decided_ids = []
+                    for pe in prep:
+                        if pe.get("decided"):
+                            decided_ids = pe.get("tx_ids") or []
+                    if chainlog.construct_context(e["err"], decided_ids, built_by_id):
+                        continue    # same situation as reported above for the nodes (the lab rebuilds the block like a syncing node)
                     v.violate("C05/lab-replay-error/%s/%s" % (e["stage"], chainlog.err_class(e["err"])),
                               "step-by-step replay of the decided block failed at %s: %s" % (e["stage"], e["err"][:160]), wit)
             if len(v.samples) < 3 and has_user_txs and len(prep) > 1:
